@@ -4,6 +4,7 @@ CONSTANTS
   MaxTypes = 2
   MaxFuncs = 2
   MaxEdits = 2
+  EditOps = {"build", "findadd", "nametype", "delete", "root", "gc"}
 INVARIANTS
   ParseMapAgrees
   DedupExact
